@@ -135,7 +135,8 @@ def relink(dst, store, layout):
     return n
 
 
-def relocated_report(names, c_locale=False, late=False, layout=None):
+def relocated_report(names, c_locale=False, late=False, layout=None,
+                     cwd_deleted=False):
     """Load by name from a relocated copy in a fresh interpreter (optionally
     one whose default text encoding is ASCII: the C locale, UTF-8 mode and
     locale coercion off -- what a data file with a stray non-ASCII character
@@ -156,12 +157,22 @@ def relocated_report(names, c_locale=False, late=False, layout=None):
             env.update({'LC_ALL': 'C', 'LANG': 'C', 'PYTHONUTF8': '0',
                         'PYTHONCOERCECLOCALE': '0'})
             env.pop('PYTHONIOENCODING', None)
+        root_ = os.path.dirname(os.path.dirname(os.path.dirname(
+            os.path.abspath(__file__))))
+        run_cwd = root_
+        if cwd_deleted:
+            # the child removes its own working directory before it loads
+            # anything (a job whose scratch directory was cleaned up)
+            run_cwd = os.path.join(tmp, 'gone')
+            os.makedirs(run_cwd)
+            env['VMON_DELETE_CWD'] = '1'
+            env['VMON_ALSO_BY_PATH'] = '1'
+            env['PYTHONPATH'] = root_ + os.pathsep + env.get('PYTHONPATH', '')
         p = subprocess.run(
             [sys.executable, '-X', 'faulthandler', '-W', 'ignore', '-m',
              'vmon.core.reloc_child'] + list(names),
-            cwd=os.path.dirname(os.path.dirname(os.path.dirname(
-                os.path.abspath(__file__)))),
-            env=env, capture_output=True, text=True, timeout=600)
+            cwd=run_cwd, env=env, capture_output=True, text=True,
+            timeout=600)
         if '@@REPORT@@' not in p.stdout:
             return None, dst, p.stderr[-1500:]
         rep = json.loads(p.stdout.split('@@REPORT@@')[1].strip())
@@ -264,6 +275,22 @@ def check_locations(ctx, name):
                        'opened_in_package_dir': inside_l[:4]})
         return
     ctx.count('relocated_loads_with_late_override')
+    # a process whose working directory no longer exists
+    rep_g, _, err_g = relocated_report([name], cwd_deleted=True)
+    ctx.evals()
+    if rep_g is None or rep_g['digests'].get(name) != da or \
+            rep_g.get('digests_by_path', {}).get(name) != da or \
+            not rep_g.get('cwd_gone'):
+        ctx.violation('the database does not load (by name / by absolute '
+                      'path) in a process whose working directory has been '
+                      'removed', case,
+                      {'stderr': (err_g or '')[-400:],
+                       'by_name': None if rep_g is None else
+                       rep_g['digests'].get(name),
+                       'by_path': None if rep_g is None else
+                       rep_g.get('digests_by_path', {}).get(name)})
+        return
+    ctx.count('loads_in_a_process_without_working_directory')
     # relocated trees of the same bytes whose files are symbolic links
     for layout in ('cas', 'dedup'):
         rep_s, _, err_s = relocated_report([name], layout=layout)
